@@ -44,11 +44,22 @@ ReqStep(q) ==
   /\ Prop = "C14" => /\ (q.res = "ok") = (R.res = "ok")
                      /\ q.res = "ok" => ValOk(q, R)
   \* C07: a write attempt that passes the open / author gates is refused exactly when the capability is not write
-  /\ (Prop = "C07" /\ q.op \in {"InsertLocal", "DeletePrefix"} /\ R.res \in {"ok", "ReadOnly", "NewerEntryExists"}
+  /\ (Prop = "C07" /\ q.op \in {"InsertLocal", "DeletePrefix", "ExportSecret"} /\ R.res \in {"ok", "ReadOnly", "NewerEntryExists"}
         /\ q.res \in {"ok", "ReadOnly", "NewerEntryExists"})
        => (q.res = "ReadOnly") = (R.res = "ReadOnly")
   /\ st' \in Succ(q, R)
   /\ pend' = NextPend(q, R)
+
+\* ---- concurrent clients: is there an interleaving of the two recorded sequences (each in its own order) such
+\*      that every reply is what ActorStep prescribes in the state reached?  (linearizability of the handle)
+ReplyMatches(s, q) ==
+  LET R == ActorStep(s, q) IN (q.res = "ok") = (R.res = "ok") /\ (q.res = "ok" => ValOk(q, R))
+RECURSIVE Lin(_, _, _, _, _)
+Lin(s, c1, i, c2, j) ==
+  IF i > Len(c1) /\ j > Len(c2) THEN TRUE
+  ELSE \/ (i <= Len(c1) /\ ReplyMatches(s, c1[i]) /\ Lin(ActorStep(s, c1[i]).st, c1, i + 1, c2, j))
+       \/ (j <= Len(c2) /\ ReplyMatches(s, c2[j]) /\ Lin(ActorStep(s, c2[j]).st, c1, i, c2, j + 1))
+ConcOk(r) == Lin(st, r.clients[1], 1, r.clients[2], 1)
 
 ShutdownOk(r) ==
   /\ r.res = "ok"
@@ -61,6 +72,7 @@ Step ==
        CASE r.ev = "Reset" -> st' = StartWith(r.caps) /\ pend' = <<>>
          [] r.ev = "Req" -> ReqStep(r)
          [] r.ev = "Drain" -> (Prop \in {"C12", "C14"} => DrainOk(r)) /\ st' = st /\ pend' = [s \in DOMAIN pend |-> <<>>]
+         [] r.ev = "Conc" -> (Prop = "C14" => ConcOk(r)) /\ st' = st /\ pend' = pend
          [] r.ev = "Shutdown" -> (Prop # "C12" => ShutdownOk(r)) /\ st' = st /\ pend' = pend
          [] OTHER -> FALSE
   /\ l' = l + 1
